@@ -552,6 +552,14 @@ Theorem C04_store_slice : forall st k gap ix s, nth_error st k = Some s ->
 Proof. exact dstep_slice. Qed.
 Print Assumptions C04_store_slice.
 
+(* + and right-+ in the object-store histories: a new object, upper-cased as a whole by the constructor (+= is an edit
+   and keeps the case: C04_edit_like_str) *)
+Theorem C04_store_concat : forall st k t s, nth_error st k = Some s ->
+  dstep_run st (DAdd k t) = (st ++ [mkseq (py_upper (data s ++ t)) (sid s)], show_seq (mkseq (py_upper (data s ++ t)) (sid s))) /\
+  dstep_run st (DRadd k t) = (st ++ [mkseq (py_upper (t ++ data s)) (sid s)], show_seq (mkseq (py_upper (t ++ data s)) (sid s))).
+Proof. exact dstep_add. Qed.
+Print Assumptions C04_store_concat.
+
 (* ---- round 7: the remaining methods of the namespace as list functions ---- *)
 (* removeprefix / removesuffix cut exactly one leading / trailing copy, and nothing otherwise *)
 Theorem C04_str_remove_affix : forall s p,
